@@ -358,6 +358,19 @@ structure IlResult where
   flag : Bool
 deriving Repr
 
+/-- the integer output types of `_soxr_interleave(_f)`: the `rint-clip.h` kernels. -/
+def interleaveInt (eng : Fmt) (t : DType) (chans : List (List Nat)) (n : Nat) (dith : Bool) (seed : Seed) (flag : Bool) :
+    IlResult :=
+  let c : Cfg := ⟨rintMax t, dith && t = .i16⟩
+  let vals := chans.map fun ch => ch.map eng.decode
+  match vals with
+  | [xs] =>                                  -- ch == 1: LSX_RINT_CLIP
+    let r := lsxRintClip c xs seed ⟨flag, 0⟩
+    ⟨r.1.map (ofSigned t.bits), r.2.2.clips, r.2.1, r.2.2.flag⟩
+  | _ =>                                     -- LSX_RINT_CLIP_2
+    let r := lsxRintClip2 c vals seed ⟨flag, 0⟩
+    ⟨(interleaveLists r.1 n).map (ofSigned t.bits), r.2.2.clips, r.2.1, r.2.2.flag⟩
+
 /-- `_soxr_interleave(data_type, dest0, src, n, ch, seed)` (engine `double`) / `_soxr_interleave_f` (engine `float`).
     `chans`: the `ch` channel buffers (bit patterns of the engine's sample type, `n` each);
     `dith`: whether a seed pointer is passed (`soxr.c` passes none under `SOXR_NO_DITHER`; only int16 output uses it). -/
@@ -366,16 +379,8 @@ def interleave (eng : Fmt) (t : DType) (chans : List (List Nat)) (n : Nat) (dith
   match t with
   | .f32 => ⟨interleaveLists (chans.map fun c => c.map (interleaveFloat eng f32)) n, 0, seed, flag⟩
   | .f64 => ⟨interleaveLists (chans.map fun c => c.map (interleaveFloat eng f64)) n, 0, seed, flag⟩
-  | t =>
-    let c : Cfg := ⟨rintMax t, dith && t = .i16⟩
-    let vals := chans.map fun ch => ch.map eng.decode
-    match vals with
-    | [xs] =>                                  -- ch == 1: LSX_RINT_CLIP
-      let (os, seed', st) := lsxRintClip c xs seed ⟨flag, 0⟩
-      ⟨os.map (ofSigned t.bits), st.clips, seed', st.flag⟩
-    | _ =>                                     -- LSX_RINT_CLIP_2
-      let (oss, seed', st) := lsxRintClip2 c vals seed ⟨flag, 0⟩
-      ⟨(interleaveLists oss n).map (ofSigned t.bits), st.clips, seed', st.flag⟩
+  | .i32 => interleaveInt eng .i32 chans n dith seed flag
+  | .i16 => interleaveInt eng .i16 chans n dith seed flag
 
 /-! ## The unit-gain path of `soxr.c` at equal rates -/
 
